@@ -183,6 +183,43 @@ def check_adaptation(F, rep):
                     pass
                 det.append("chain: %s.then(diagonal_matrix(%s)).then(%s)" % (r0, dargs, a_out))
         rep.ob("ADAPT", "adaptation_matrix-structure", ok, "; ".join(det), F.loc(am))
+        # ADAPT-NORM: a caller-supplied white point (either side) is normalised to Y = 1 before it reaches the diagonal: otherwise the
+        # adapted colour is scaled by the white's luminance and "adapting there and back" returns Y_src*Y_dst*c
+        params = [p_.get("n") for p_ in am.get("params", [])]
+        lets = {}
+        for n, parents in facts.walk(am["body"]):
+            if n.get("k") == "let" and isinstance(n.get("pat"), dict) and n["pat"].get("k") == "bind" and n.get("init") is not None:
+                lets.setdefault(n["pat"]["n"], []).append(n["init"])
+
+        def mentions(e, name):
+            return any(x.get("k") == "path" and isinstance(x.get("res"), dict) and x["res"].get("k") == "local" and x["res"].get("n") == name for x, _p in facts.walk(e))
+
+        def normalised(e, pname):
+            for x, _p in facts.walk(e):
+                if x.get("k") == "mcall" and x.get("n") == "normalize" and mentions(x["r"], pname):
+                    return True
+                if x.get("k") == "mcall" and x.get("n") in ("map", "map_or", "map_or_else", "and_then") and mentions(x["r"], pname):
+                    for a in x.get("a", []):
+                        for y, _q in facts.walk(a):
+                            r = y.get("res") if y.get("k") == "path" else None
+                            if isinstance(r, dict) and isinstance(r.get("c"), dict) and F.S[r["c"]["d"]].endswith("::normalize"):
+                                return True
+                            if y.get("k") == "mcall" and y.get("n") == "normalize":
+                                return True
+            return False
+        dcalls = [n for n, _p in facts.walk(am["body"]) if isinstance(n.get("c"), dict) and "d" in n["c"] and F.S[n["c"]["d"]].endswith("diagonal_matrix")]
+        if len(dcalls) == 1 and len(params) == 2 and all(params):
+            for role, pname, arg in zip(("input", "output"), params, dcalls[0].get("a", [])):
+                # the argument expression, with let-bound locals replaced by their initialisers (the locals shadow the parameters)
+                exprs = [arg]
+                nm = arg.get("res", {}).get("n") if arg.get("k") == "path" else None
+                if nm in lets:
+                    exprs = lets[nm]
+                okn = any(mentions(e, pname) and normalised(e, pname) for e in exprs)
+                rep.ob("ADAPT", "adaptation_matrix-normalises-%s-white" % role, okn,
+                       "the caller-supplied %s white point reaches diagonal_matrix %s normalize()" % (role, "through" if okn else "WITHOUT"), F.loc(am))
+        else:
+            rep.fail("ADAPT", "adaptation_matrix-normalises", "cannot identify diagonal_matrix(input, output) and the two white point parameters", F.loc(am))
     except facts.AnchorMissing as ex:
         rep.fail("ADAPT", "adaptation_matrix-structure", str(ex))
     # Xyz<Wp2> <- Xyz<Wp1>: equal white points take the identity arm; the guard compares the white points
